@@ -4,6 +4,8 @@ import hashlib
 import json
 import multiprocessing
 import os
+import signal
+import threading
 import subprocess
 import sys
 import time
@@ -27,25 +29,47 @@ def get_sim(prop):
 
 # ---------------------------------------------------------------- single runs
 
+class RunTimeout(BaseException):
+    pass
+
+
+def _alarm(signum, frame):
+    raise RunTimeout()
+
+
+def _execute(sim, st, src):
+    """run one simulated execution under a watchdog: a run that normally takes milliseconds and does not finish within
+    sim.RUN_TIMEOUT seconds is reported as <PROP>.hang (step caps do not bound hangs inside the system under test)"""
+    limit = getattr(sim, "RUN_TIMEOUT", 60)
+    use_alarm = threading.current_thread() is threading.main_thread()
+    if use_alarm:
+        old = signal.signal(signal.SIGALRM, _alarm)
+        signal.setitimer(signal.ITIMER_REAL, limit)
+    try:
+        sim.execute(st, src)
+    except StopRun:
+        pass
+    except RunTimeout:
+        st.failures.append((sim.PROP + ".hang", f"the run did not finish within {limit} s (runs of this engine normally take milliseconds): "
+                            f"an operation of the system under test does not terminate; last event: {json.dumps(st.events[-1], default=str)[:200] if st.events else None}", {}))
+    finally:
+        if use_alarm:
+            signal.setitimer(signal.ITIMER_REAL, 0)
+            signal.signal(signal.SIGALRM, old)
+    return st
+
+
 def run_generated(sim, seed, idx, tier):
     rng = derive_rng(seed, sim.PROP, idx)
     knobs = sim.knobs(rng, tier)
     st = sim.start(knobs)
     src = GenSource(sim, rng, knobs.get("max_events", sim.MAX_EVENTS))
-    try:
-        sim.execute(st, src)
-    except StopRun:
-        pass
-    return st
+    return _execute(sim, st, src)
 
 
 def run_replay(sim, knobs, events):
     st = sim.start(knobs)
-    try:
-        sim.execute(st, ListSource(events))
-    except StopRun:
-        pass
-    return st
+    return _execute(sim, st, ListSource(events))
 
 
 # ---------------------------------------------------------------- minimisation
@@ -67,6 +91,8 @@ def minimise(sim, knobs, events, clause, budget_s=25.0, max_replays=400):
         return bool(st.failures) and st.failures[0][0] == clause
 
     cur = list(events)
+    if clause.endswith(".hang"):
+        return cur, 0          # every replay of a hanging run costs the full watchdog time: report it as recorded
     # the run stopped at the failing event: nothing after it matters
     n = 2
     while len(cur) >= 2:
